@@ -667,6 +667,15 @@ func (e *SpecEnv) evalCall(n *SCall) Value {
 	case "real":
 		s := e.scalar(n.Args[0])
 		return Sc{ToReal(s.T), types.Typ[types.Float64]}
+	case "string":
+		// conversion between string kinds (v1.ResourceName, types.UID, ... -> string): identity on the Str sort
+		if len(n.Args) == 1 {
+			s := e.scalar(n.Args[0])
+			if s.T.Sort == SStr {
+				return Sc{s.T, types.Typ[types.String]}
+			}
+			e.fail("string(x): x must be of a string kind")
+		}
 	case "int", "floor":
 		s := e.scalar(n.Args[0])
 		if s.T.Sort == SInt {
